@@ -342,6 +342,10 @@ class Result:
     def finish(self, work: Work = None) -> int:
         cov = self.coverage
         cov["distinct_nontrivial"] = len(self._distinct)
+        for k in [k for k in cov if k.startswith("_")]:
+            del cov[k]
+        if cov.get("checker_cmd", "").startswith("tlc tlc2.TLC"):
+            cov["checker_cmd"] = cov["checker_cmd"][4:]
         wall = round(time.time() - self.t0, 2)
         ev = {"property_id": self.pid, "tier": self.tier, "seed": self.seed, "level": self.level, "coverage": cov,
               "assumptions": self.assumptions, "wall_s": wall, "violations": len(self.violations)}
